@@ -2,7 +2,10 @@
 //! usage: vh <subcommand> <cases.json> <obs.json>
 //! cases.json: JSON array of case objects; obs.json: JSON array of observations (same order).
 mod util;
+mod c02;
 mod c03;
+mod c08;
+mod c18;
 mod c11;
 mod c12;
 mod c13;
@@ -47,7 +50,9 @@ fn main() {
     std::process::exit(2);
   }
   // silence panic messages from catch_unwind'ed cases
-  std::panic::set_hook(Box::new(|_| {}));
+  if std::env::var("VH_PANIC").is_err() {
+    std::panic::set_hook(Box::new(|_| {}));
+  }
   let cases: Value = serde_json::from_str(&fs::read_to_string(&args[2]).expect("read cases")).expect("parse cases");
   let cases = cases.as_array().expect("cases array");
   let obs: Vec<Value> = match args[1].as_str() {
@@ -56,6 +61,9 @@ fn main() {
     "pair" => cases.iter().map(pair::run_case).collect(),
     "c12" => cases.iter().map(c12::run_case).collect(),
     "c11" => c11::run_all(cases),
+    "c02" => c02::run_all(cases),
+    "c08" => c08::run_all(cases),
+    "c18" => run_parallel(cases, c18::run_case, 8),
     "c13" => cases.iter().map(c13::run_case).collect(),
     "c17" => c17::run_all(cases),
     "stack" => run_parallel(cases, stack::run_case, 8),
